@@ -1245,12 +1245,14 @@ func (g *schemaGenerator) detectCycle(t *schemas.Type) (bool, func(), error) {
 		name:       defName,
 	}
 
-	_, isCycle := g.inScope[qual]
-	if !isCycle {
-		g.inScope[qual] = struct{}{}
+	if _, isCycle := g.inScope[qual]; isCycle {
+		// The entry belongs to the enclosing visit, which removes it when done.
+		return true, func() {}, nil
 	}
 
-	return isCycle, func() {
+	g.inScope[qual] = struct{}{}
+
+	return false, func() {
 		delete(g.inScope, qual)
 	}, nil
 }
